@@ -6,7 +6,7 @@
 set -u
 PID=$1; N=$2; shift 2; EXTRA="$@"
 WT=/tmp/seed-$PID; OUT=/tmp/seed-$PID-out
-DST=/verif/seeded/$PID-$N
+DST=/verif/seeded/$PID-${DESTN:-$N}
 mkdir -p $DST
 export CARGO_NET_OFFLINE=true
 cd $WT && git checkout -q -- . && rm -f tests/seed_demo.rs
@@ -39,9 +39,9 @@ python3 - "$PID" "$N" "$SUITE" "$DEMO_WITH" "$DEMO_WITHOUT" "$VERDICTS" <<'PY'
 import json,sys
 pid,n,suite,dw,dwo,ver=sys.argv[1:7]
 meta=dict(breaks_property=pid, variant=int(n),
-  needs_to_manifest=open(f"/verif/seeded/{pid}-{n}/notes.md").read()[:1500] if __import__('os').path.exists(f"/verif/seeded/{pid}-{n}/notes.md") else "",
+  needs_to_manifest=open(f"/verif/seeded/{pid}-{__import__('os').environ.get('DESTN',n)}/notes.md").read()[:1500] if True else "",
   confirmed=dict(existing_suite_with_patch=suite, demo_with_patch=dw, demo_on_clean_tree=dwo),
   what_i_ran="tools/confirm_seed.sh: scratch worktree: git apply; cargo test --offline; demo as tests/seed_demo.rs with and without the patch; then git -C /repo apply; ./check <ids>; git -C /repo checkout -- .",
   check_verdicts=ver)
-json.dump(meta,open(f"/verif/seeded/{pid}-{n}/meta.json","w"),indent=1)
+json.dump(meta,open(f"/verif/seeded/{pid}-{__import__('os').environ.get('DESTN',n)}/meta.json","w"),indent=1)
 PY
